@@ -267,14 +267,19 @@ MAXV_PER_BASIS = 1
 
 
 def check_basis(part, basis, L, tag, semantic="table", deep=0, full_scratch_verdict=False,
-                only_sub=None):
+                only_sub=None, light=False):
     """basis: list of tuples.  L: word length bound for the semantic comparison.
     semantic: "table" (trace conformance against the prepared table; the run), "tree" (only the
-    avoiding tree, for replaying a finiteness case) or None (no semantics: equivalence replay)."""
+    avoiding tree, for replaying a finiteness case) or None (no semantics: equivalence replay).
+    light: only the from-scratch automaton (trace conformance + finiteness with dfa=given); the
+    database routes are left to the other bases (used for the 120 single patterns of length 5 in
+    the quick tier, where each further route would cost one more construction)."""
     PW, Perm = _PW(), _P()
     basis = [tuple(p) for p in basis]
     B = [Perm(p) for p in basis]
     case0 = {"basis": basis, "L": L, "deep": deep, "full": full_scratch_verdict}
+    if light:
+        case0["light"] = True
     fresh_dir(tag)
     _clear(PW.load_dfa_for_perm)
     if BASE_ATTRS is not None:
@@ -345,11 +350,14 @@ def check_basis(part, basis, L, tag, semantic="table", deep=0, full_scratch_verd
 
     if full_scratch_verdict:
         same("from_pinwords", lambda: PW.make_dfa_for_basis_from_pinwords(list(B)))
-    same("db_fresh", lambda: PW.make_dfa_for_basis(list(B), use_db=True))
-    _clear(PW.load_dfa_for_perm)
-    same("db_from_file", lambda: PW.make_dfa_for_basis_from_db(list(B)))
-    same("db_cached", lambda: PW.make_dfa_for_basis_from_db(list(B)))
-    if len(B) == 1:
+    if not light:
+        same("db_fresh", lambda: PW.make_dfa_for_basis(list(B), use_db=True))
+        _clear(PW.load_dfa_for_perm)
+        same("db_from_file", lambda: PW.make_dfa_for_basis_from_db(list(B)))
+        same("db_cached", lambda: PW.make_dfa_for_basis_from_db(list(B)))
+    if light:
+        pass
+    elif len(B) == 1:
         same("make_dfa_for_perm", lambda: PW.make_dfa_for_perm(B[0]))
     elif len(B) <= 4:       # the product of more automata is not bounded by anything small
         # own union of the per-permutation automata as loaded from the database
@@ -380,8 +388,9 @@ def check_basis(part, basis, L, tag, semantic="table", deep=0, full_scratch_verd
     fin, longest, n = F.rejected_language_shape(PA, MREF)
     st_total += n
     verdicts = {}
-    calls = [("dfa_given", lambda: PW.has_finite_pinperms(list(B), dfa=A)),
-             ("use_db", lambda: PW.has_finite_pinperms(list(B), use_db=True))]
+    calls = [("dfa_given", lambda: PW.has_finite_pinperms(list(B), dfa=A))]
+    if not light:
+        calls.append(("use_db", lambda: PW.has_finite_pinperms(list(B), use_db=True)))
     if full_scratch_verdict:
         calls.append(("scratch", lambda: PW.has_finite_pinperms(list(B))))
     for name, call in calls:
@@ -459,9 +468,10 @@ def check_basis(part, basis, L, tag, semantic="table", deep=0, full_scratch_verd
 
 
 def shard_basis(shard):
-    idx, basis, L, deep, full = shard
+    idx, basis, L, deep, full = shard[:5]
+    light = bool(shard[5]) if len(shard) > 5 else False
     part = Partial()
-    check_basis(part, basis, L, "b%d" % idx, "table", deep, full)
+    check_basis(part, basis, L, "b%d" % idx, "table", deep, full, light=light)
     return part
 
 
@@ -485,6 +495,17 @@ def ref_pinwords(n):
                 break
         if ok:
             out.append("".join(w))
+    return out
+
+
+def ref_factors(u):
+    """Numeral-led factors of a pin word: cut before every numeral."""
+    out = []
+    for c in u:
+        if c in "1234" or not out:
+            out.append(c)
+        else:
+            out[-1] += c
     return out
 
 
@@ -900,10 +921,18 @@ def pool(quick):
     for b in sel:
         push(b)
     longs = []
-    five = S5_QUICK if quick else S5_QUICK + S5_MORE
-    for p in five:
+    # every single pattern of length 5: the first length at which a pin word can chain two strict
+    # factors of different lengths, i.e. where the per-word automaton A* f(u1) A* f(u2) A* is
+    # exercised with factor images of different sizes; all 120, not one per symmetry class (the
+    # construction goes through letter tables, nothing guarantees that it treats the eight images
+    # alike).  In the quick tier all but two of them are checked in the "light" mode.
+    for p in S5_QUICK + S5_MORE:
         push([p])
         longs.append(p)
+    for p in R.perms(5):
+        push([p])
+        if p not in longs:
+            longs.append(p)
     push([S5_QUICK[0], (0, 1, 2)])
     push([S5_QUICK[0], S5_QUICK[1]])
     # bases whose FIRST element in sorted order has no pin word at all (only possible from length
@@ -948,6 +977,10 @@ def pool(quick):
         if not quick:
             push_ordered(s3 + s4[:k - 6])
     if not quick:
+        # all pairs of the symmetry-class representatives of S5
+        reps5 = sorted({min(R.orbit(p)) for p in R.perms(5)})
+        for pr in itertools.combinations(reps5, 2):
+            push(pr)
         s5 = R.perms(5)
         for k in range(5, 17):
             b = s5[:k]
@@ -1011,13 +1044,23 @@ def run(ctx, only=None):
     # shards first (ctx.pmap rotates the order by the seed: small seeds move the first shards last)
     tasks = []
     if want("pinword"):
-        maxu = 3 if quick else 4
+        # quick: all pin words of length <= 4 and those of length 5 with two strict factors of two
+        # or more letters (shapes NdNdd, NddNd: the shortest words in which factor images of
+        # different lengths are chained); thorough: all pin words of length <= 5
+        maxu = 4 if quick else 5
         Lu = 9 if quick else 10
         words = [u for n in range(1, maxu + 1) for u in ref_pinwords(n)]
-        per = 20 if quick else 40
+        per = 40
         for i in range(0, len(words), per):
             tasks.append(("pinwords", (words[i:i + per], Lu)))
+        if quick:
+            two = [u for u in ref_pinwords(5)
+                   if sorted(len(f) for f in ref_factors(u)) == [2, 3]]
+            for i in range(0, len(two), per):
+                tasks.append(("pinwords", (two[i:i + per], 10)))
+            words = words + two
         ctx.bounds["pinword"] = {"pin_words": len(words), "max_pinword_length": maxu,
+                                 "plus": "length 5 with factor lengths {2,3}, M-words to 10" if quick else "",
                                  "M_word_lengths": "2..%d" % Lu}
     if want("history"):
         depth = 8 if quick else 12       # closure is reached at depth 4 / 5 (checked: else cap)
@@ -1046,12 +1089,13 @@ def run(ctx, only=None):
             Lb = klen[max(k, 4)]
             full = quick and k <= 3 or not quick and (k <= 3 or len(b) == 1 and k <= 4
                                                       or len(b) >= 5 and k <= 4)
-            tasks.append(("basis", (i, b, Lb, deep if k <= 4 else 0, bool(full))))
+            light = quick and len(b) == 1 and k == 5 and b[0] not in S5_QUICK
+            tasks.append(("basis", (i, b, Lb, deep if k <= 4 else 0, bool(full), light)))
         ctx.bounds["conform"] = {
             "bases": len(bases),
             "pool": "all single patterns of length 0..4; all pairs of length 1..3; pairs with a "
-                    "pattern of length 4 and triples of length 2..3 (%s); 9 selected bases; single "
-                    "patterns of length 5%s; pairs/triples whose first sorted element is not a pin "
+                    "pattern of length 4 and triples of length 2..3 (%s); 9 selected bases; all 120 "
+                    "single patterns of length 5 (quick: 118 of them scratch route only)%s; pairs/triples whose first sorted element is not a pin "
                     "permutation; cardinality family: for every k in 5..%d the first k of S4 "
                     "(decreasing order) and the last k of S4 (increasing order)%s, and for k >= 7 "
                     "S3 + the first k-6 of S4 (non-minimal)%s"
@@ -1059,7 +1103,8 @@ def run(ctx, only=None):
                        "" if quick else " and 6 (two of them not pin permutations)",
                        16 if quick else 24,
                        "" if quick else " each in both orders",
-                       "" if quick else " in both orders; the first k of S5, k in 5..16"),
+                       "" if quick else " in both orders; the first k of S5, k in 5..16; all pairs of the "
+                                      "symmetry-class representatives of S5"),
             "word_lengths": "2..%d (patterns <= 4), 2..%d (length 5)%s" % (
                 klen[4], klen[5], "" if quick else ", 2..%d (length 6)" % klen[6]),
             "deep_avoiding_word_length": deep,
@@ -1167,8 +1212,9 @@ def replay(ctx, rec):
         part = Partial()
         try:
             if kind == "basis":
-                _, basis, L, deep, full = payload
-                check_basis(part, basis, L, "replay", "tree", deep, full)
+                _, basis, L, deep, full = payload[:5]
+                check_basis(part, basis, L, "replay", "tree", deep, full,
+                            light=bool(payload[5]) if len(payload) > 5 else False)
             elif kind == "pinwords":
                 for u in payload[0]:
                     check_pinword(part, u, payload[1], use_table=False)
@@ -1199,7 +1245,7 @@ def replay_basis(ctx, basis, L, case, sub):
     part = Partial()
     check_basis(part, basis, L, "replay", "tree" if sub == "finite" else None,
                 case.get("deep", 0), case.get("full", False),
-                only_sub=sub if sub != "construct" else None)
+                only_sub=sub if sub != "construct" else None, light=case.get("light", False))
     for v in part.viols:
         if v["sub"] == sub and (sub != "equiv" or v["case"].get("route") == case.get("route")):
             ctx.violation(v["sub"], case, v["detail"])
